@@ -238,7 +238,8 @@ func getFieldDecoder(pInfo parentInfos, field reflect.StructField, index int, by
 
 	// base type decoder
 	dec, err := getBaseTypeTextDecoder(field, index, fieldTagInfos, pInfo.Indexes, config)
-	return dec, needValidate, err
+	// (what an interface field holds is not known here: the validator walks into it)
+	return dec, needValidate || field.Type.Kind() == reflect.Interface, err
 }
 
 // hasSameType determine if the same type is present in the parent-child relationship
